@@ -1,6 +1,9 @@
 """C08 - interactive results converge to a fresh filter of the current query.
 Layer (a): query-edit histories against the caches (Engine A). Layers (b) scheduler and (c) pty are added as further functions."""
 import os
+import sys
+
+sys.path.insert(0, os.path.dirname(os.path.abspath(__file__)))
 
 FILES = ["harness/fzf/c08a.go"]
 
@@ -11,6 +14,16 @@ def layer_a(c, b, replay=None):
                      "exclude top item, more items arrive (250 -> 300 -> 370), input ends} on one ChunkCache + patternCache + Matcher.Loop; after every "
                      "event the published list = fresh pattern on a fresh cache; evaluations = events executed, states = distinct (query, sort, item count, "
                      "final, excluded) reached, transitions = distinct state pairs, non-trivial = histories ending with a non-empty list" % c.pick(4, 5))
+
+
+def layer_b(c, replay=None):
+    """the request mailbox under every schedule (Engine B)"""
+    import schedlib
+    b, info = schedlib.build(c, ["harness/fzf/sched_common.go", "harness/fzf/c08b.go"], chunk_size=4, out="hs.test")
+    c.bounds["mailbox"] = dict(deviation_bound=c.pick(2, 3), scripts="2-3 Matcher.Reset calls: cancel/retry x query a/x x same/grown snapshot x final/non-final", **info)
+    c.run_layer(b, "TestVerif_C08_mailbox", "mailbox-schedules", deadline_s=c.pick(120, 1200), replay=replay, mem_mb=8000,
+                rule="coordinator stub issuing 2-3 Resets || real Matcher.Loop || scan worker: every schedule with at most B deviations and both map-iteration "
+                     "orders of the request box; at quiescence the last published result is the sequential result of the LAST issued request")
 
 
 def run(c, replay):
@@ -25,7 +38,17 @@ def run(c, replay):
     c.assumptions += ["the coordinator stub issues Snapshot / Matcher.Reset exactly as the event loop in core.go does for EvtReadNew, EvtReadFin and "
                       "EvtSearchNew(changed)", "requests do not overlap in this layer: each event waits for EvtSearchFin (overlap is layer b)",
                       "histories with the same sequence of states are the same execution and are run once"]
+    import json
+    import c08c
     if replay:
-        layer_a(c, b, replay)
+        layer = json.load(open(replay)).get("layer", "cache-histories")
+        if layer == "mailbox-schedules":
+            layer_b(c, replay)
+        elif layer == "end-to-end":
+            c08c.layer_c(c, replay)
+        else:
+            layer_a(c, b, replay)
         return
     layer_a(c, b)
+    layer_b(c)
+    c08c.layer_c(c)
